@@ -679,6 +679,75 @@ func c18ThirdPartyStore(c *Ctx) {
 	}
 }
 
+// every filter field of fileadapter.Filter (P, G, G1 .. G5): a model that declares the six rule
+// types p, g, g2 .. g5; a filter that constrains exactly ONE of them must restrict that type to the matching
+// rules and load every rule of the other types.  Implementation-only (Filter.v models p/g/g2).
+func c18AllTypes(c *Ctx, dir string) {
+	// (a role definition cannot be NAMED g1 in a model text: the loader numbers them g, g2, g3, ...;
+	// Filter.G1 therefore never applies to anything)
+	types := []string{"p", "g", "g2", "g3", "g4", "g5"}
+	mtext := "[request_definition]\nr = sub, obj\n[policy_definition]\np = sub, obj\n[role_definition]\ng = _, _\ng2 = _, _\ng3 = _, _\ng4 = _, _\ng5 = _, _\n[policy_effect]\ne = some(where (p.eft == allow))\n[matchers]\nm = g(r.sub, p.sub) && r.obj == p.obj\n"
+	var lines []string
+	for _, t := range types {
+		lines = append(lines, t+", alice, x_"+t, t+", bob, x_"+t, t+", alice, y_"+t)
+	}
+	path := filepath.Join(dir, "alltypes.csv")
+	_ = os.WriteFile(path, []byte(strings.Join(lines, "\n")+"\n"), 0o644)
+	for ti, t := range types {
+		for _, fv := range [][]string{{"alice"}, {"", "x_" + t}, {"bob", "x_" + t}, {"nobody"}} {
+			f := &fileadapter.Filter{}
+			switch t {
+			case "p":
+				f.P = fv
+			case "g":
+				f.G = fv
+			case "g1":
+				f.G1 = fv
+			case "g2":
+				f.G2 = fv
+			case "g3":
+				f.G3 = fv
+			case "g4":
+				f.G4 = fv
+			case "g5":
+				f.G5 = fv
+			}
+			mm, err := model.NewModelFromString(mtext)
+			if err != nil {
+				panic(err)
+			}
+			e, err := casbin.NewEnforcer(mm)
+			if err != nil {
+				panic(err)
+			}
+			e.SetAdapter(fileadapter.NewFilteredAdapter(path))
+			id := fmt.Sprintf("c18.alltypes.%d", ti)
+			if err := e.LoadFilteredPolicy(f); err != nil {
+				c.Direct(id, "LoadFilteredPolicy failed on a model with the rule types p, g, g1..g5", fmt.Sprint(t, fv))
+				continue
+			}
+			for _, u := range types {
+				var got [][]string
+				if u == "p" {
+					got, _ = e.GetNamedPolicy(u)
+				} else {
+					got, _ = e.GetNamedGroupingPolicy(u)
+				}
+				var want [][]string
+				for _, r := range [][]string{{"alice", "x_" + u}, {"bob", "x_" + u}, {"alice", "y_" + u}} {
+					if u != t || c18SpecMatch(fv, r) {
+						want = append(want, r)
+					}
+				}
+				if rulesKey(got) != rulesKey(want) {
+					c.Direct(id, fmt.Sprintf("filter field of type %s = %v: the rules of type %s loaded are %s, expected %s", t, fv, u, rulesKey(got), rulesKey(want)), strings.Join(lines, " / "))
+				}
+			}
+			c.Count("filter-field-per-type")
+		}
+	}
+}
+
 // ordering models (subjectPriority, priority): whatever sequence of filtered / incremental loads
 // produced the view, the rule ORDER and the decisions must be those of a plain load of exactly
 // the lines in view (same file order).  Implementation-only predicate (Filter.v has no sort).
@@ -846,6 +915,7 @@ func init() {
 		v := &c18Env{c: c, dir: dir, path: filepath.Join(dir, "policy.csv")}
 		c18Ordering(c, dir)
 		c18ThirdPartyStore(c)
+		c18AllTypes(c, dir)
 		flat, flat2, dom := c18Flat(), c18Flat2(), c18Dom()
 		n := 0
 		id := func(tag string) string { n++; return fmt.Sprintf("c18.%s.%d", tag, n) }
